@@ -11,7 +11,7 @@ package cidlink
 
 //@ func (LinkPrototype).BuildLink(hashsum) (l)
 //@   requires lp.Prefix.Version == 1 || (lp.Prefix.Version == 0 && lp.Prefix.MhType == 18 && (lp.Prefix.MhLength == 32 || lp.Prefix.MhLength == 0 - 1))
-//@   assigns nothing
+//@   assigns[C20] nothing
 //@   ensures[C05] dyntype(l, "Link")
 //@   ensures[C05] lp.Prefix.Version == 1 ==> unbox(l, "Link").Cid.str == cid.cidstr(1, lp.Prefix.Codec, multihash.mhseq(hash.bsrc(hashsum), usedlen(lp.Prefix.MhType, lp.Prefix.MhLength, len(hashsum)), lp.Prefix.MhType), io.blen(multihash.mhseq(hash.bsrc(hashsum), usedlen(lp.Prefix.MhType, lp.Prefix.MhLength, len(hashsum)), lp.Prefix.MhType)))
 //@   ensures[C05] lp.Prefix.Version == 0 ==> unbox(l, "Link").Cid.str == cid.cidstr(0, 112, multihash.mhseq(hash.bsrc(hashsum), usedlen(lp.Prefix.MhType, lp.Prefix.MhLength, len(hashsum)), lp.Prefix.MhType), io.blen(multihash.mhseq(hash.bsrc(hashsum), usedlen(lp.Prefix.MhType, lp.Prefix.MhLength, len(hashsum)), lp.Prefix.MhType)))
@@ -20,7 +20,7 @@ package cidlink
 
 //@ func LinkSystemUsingMulticodecRegistry$1(lp) (e, err)
 //@   requires lp != nil
-//@   assigns nothing
+//@   assigns[C20] nothing
 //@   ensures[C05] dyntype(lp, "LinkPrototype") && indom(mcReg.encoders, unbox(lp, "LinkPrototype").Prefix.Codec) ==> err == nil && e == mcReg.encoders[unbox(lp, "LinkPrototype").Prefix.Codec]
 //@   ensures[C05] !(dyntype(lp, "LinkPrototype") && indom(mcReg.encoders, unbox(lp, "LinkPrototype").Prefix.Codec)) ==> err != nil && e == nil
 
